@@ -311,16 +311,24 @@ CLAIMED['C08'] = dict(
     ref='DESIGN.md section 7 C08')
 CLAIMED['C07'] = dict(
     engine='E-cell',
-    text='Rocq theorems on the model, for every cell state, queue and placer: C07_victims_behind (the eviction scan '
-         'changes no instance other than the placer and the instances strictly behind it), '
-         'C07_attempt_touches_nobody_else, C07_victims_on_up_servers, C07_blacklisted_inert. C07_stale_refuted: '
-         'machine-checked witness of the known finding (an instance whose placement is stale for its allocation is '
-         'evicted for an instance ahead that then fails to place, and cannot be restored). Partial: the full statement '
-         'needs the loop invariant over queue positions; it is decided by the correspondence (queue and placement '
-         'tuples in every cycle digest) and the C07 oracle on the captured queue.',
-    note=SCHED_NOTE,
-    technique='Rocq proof (frame lemmas over the eviction scan and the placement walk) + refutation witness + '
-              'per-operation digest correspondence + oracle',
+    text='Rocq theorems on the model. C07_displaced_only_for_one_ahead: for every reachable state and the cycle run from '
+         'it, an instance that sits on a server, is not blacklisted, not flagged for renewal, holds a valid identity, is '
+         'not ranked beyond the utilisation cap, is not due to be moved off an inactive server, and whose placement is '
+         'still admissible for its allocation (label and traits) EITHER is on the same server after the cycle OR some '
+         'other instance that was not on that server before the cycle is on it afterwards and had its turn strictly '
+         'before it in the cycle\'s turn order (concatenation of the partition queues). Proof: resource accounting over '
+         'the loop - a restore can only be refused when somebody new took the room or the affinity head-room '
+         '(restore_guard), loop invariants over queue positions (waiting/done), composition over partitions. '
+         'C07_victims_behind, C07_attempt_touches_nobody_else, C07_victims_on_up_servers, C07_blacklisted_inert for '
+         'every cell state. C07_stale_refuted: machine-checked witness that the admissibility proviso is necessary on '
+         'the code as it is (known finding: an instance whose placement is stale for its allocation is evicted for an '
+         'instance ahead that then fails to place, and cannot be restored).',
+    note=SCHED_NOTE + ' Hypotheses of reachability (reachableA): fresh names, vectors of the cell dimension, a new '
+         'instance record is unplaced and holds no identity, counts >= 0, instances of one affinity declare the same '
+         'limits.',
+    technique='Rocq proof (resource-accounting lemma for Server.restore, loop invariants over queue positions, '
+              'partition composition, invariants over all histories) + refutation witness + per-operation digest '
+              'correspondence + oracle',
     ref='DESIGN.md section 7 C07')
 CLAIMED['C02'] = dict(
     engine='E-cell',
